@@ -46,24 +46,40 @@ claim("C03", "proof", T1 + " (theory B: exact reference lists + ghost position/o
       "reachability, leaf-taxon multisets, bipartition freshness.",
       "acyclicity/reachability are not modelled at T1; composite operations (reseed_at, prune, suppress_unifurcations, encode) are bounded only",
       "DESIGN.md section 5 C03")
-claim("C04", "exploration", T2,
-      "Bounded: all pairs/triples over small shapes x length patterns against the split-set definitions (RF, fp/fn, wRF, Euclidean), metric axioms, "
-      "definedness symmetry, namespace refusal, edit-then-distance histories.",
-      "bounded stand-in only for this property in this build (the Lean metric lemmas of the design are not built yet)", "DESIGN.md section 5 C04")
-claim("C05", "exploration", T2,
-      "Bounded: every multiset of <= 3 (thorough 4) labelled 4-leaf topologies x weights x thresholds: exact frequencies, consensus all-and-only / maximal-greedy, "
-      "support/length/age summaries, collapse, maximum-credibility argmax.",
-      "bounded stand-in only for this property in this build", "DESIGN.md section 5 C05")
-claim("C06", "proof", T1 + " (lists modelled by their length); " + T2,
-      "Proved (T1): TreeArray.update/extend/__iadd__/add_tree/append/insert/validate_rooting keep the four per-tree lists equally long, grow them by the stated "
-      "amount, and never refuse arrays compatible in the property's sense (equal settings; equal rooting or one side empty with undefined rooting). "
-      "Bounded (T2): every partition/arrival order/interleaving, content alignment, SumTrees collation loop with fake queues, CLI smoke.",
-      "list CONTENTS are abstracted at T1 (content alignment is bounded); SplitDistribution arithmetic is abstracted; OS scheduling and Queue delivery are out of reach",
-      "DESIGN.md section 5 C06")
-claim("C07", "exploration", T2 + "; Edge.invert contract (lengths swapped, adjacency kept) is proved under C03",
-      "Bounded: all shapes <= 5 leaves x length patterns (equal, integral, zero, missing) x every target: leaf set, unrooted splits, total length, all path sums, "
-      "rooting flag, midpoint equidistance incl. midpoint-on-node, edge-root distances, outgroup first.",
-      "bounded stand-in; floating-point rounding is tolerated as the statement says", "DESIGN.md section 5 C07")
+claim("C04", "proof", T1 + " (sets of split masks; default-argument and staleness obligations; Lean 4 + Mathlib metric lemmas); " + T2,
+      "Proved (T1): false_positives_and_negatives returns (|S_cmp - S_ref|, |S_ref - S_cmp|) over the encodings current AFTER the re-encoding it performs "
+      "(both trees unless is_bipartitions_updated; default False: never a stale encoding), refuses different namespaces; symmetric_difference = fp + fn and its aliases; "
+      "Lean: RF is the cardinality of the symmetric difference, zero iff equal split sets, symmetric, triangular; wRF / Euclidean are L1 / L2 distances of the "
+      "length vectors (symmetric, triangular). Bounded (T2): values of all four distances against the split-set definitions on all pairs/triples of small trees, "
+      "definedness symmetry, edit-then-distance histories.",
+      "card() of a finite set is an uninterpreted function with the Lean lemmas as its theory; the weighted distances' code (length vectors from bipartition_edge_map) is bounded only; "
+      "one recorded known finding (two-leaf unrooted trees)",
+      "DESIGN.md section 5 C04, section 9")
+claim("C05", "proof", T1 + " (dictionaries as maps incl. collections.defaultdict, for-over-dict loops with a ghost set of visited keys, reals for floats); " + T2,
+      "Proved (T1, first sentence of the property): the SplitDistribution accumulator -- add_split_count, count_splits_on_tree (every split of the tree's encoding gains the tree's "
+      "weight, 1.0 when weights are absent or unused; one tree counted; no other split changes), update (pointwise sum of counts and totals), calc_normalization_weight, "
+      "calc_freqs (table has exactly the counted splits, each count / total weight), _get_split_frequencies (never stale), __getitem__ (0.0 for a split in no tree). "
+      "Bounded (T2): consensus all-and-only / maximal-greedy, spanning, rooting, support / length / age summaries (also after incremental filling), collapse, maximum credibility.",
+      "ASSUMED contract: Tree.encode_bipartitions lists every split once (C01; fails exactly on the recorded finding C05-two-leaf-unrooted); floats are reals; with zero trees "
+      "counted the table holds 1.0 (taken from the code: the fraction is undefined); consensus construction (Tree.from_split_bitmasks), summarisation and scores are bounded only",
+      "DESIGN.md section 5 C05, section 9")
+claim("C06", "proof", T1 + " (lists modelled by their length; the summary as maps; Lean 4 + Mathlib merge lemmas); " + T2,
+      "Proved (T1): TreeArray.update/extend/__iadd__ keep the four per-tree lists equally long, grow them by the stated amount, never refuse arrays compatible in the property's "
+      "sense (equal settings; equal rooting or one side empty with undefined rooting), and merge the summaries componentwise (per-split counts, tree and weight totals added: "
+      "SplitDistribution.update under contract); add_tree/append/insert/validate_rooting keep alignment. Lean: componentwise addition makes the merged view independent of "
+      "arrival order, of the partition into sub-collections, and of empty sub-collections. Bounded (T2): every partition/arrival order/interleaving end to end, content "
+      "alignment, SumTrees collation loop with fake queues, CLI smoke.",
+      "list CONTENTS and the per-split edge-length / node-age lists are abstracted at T1 (bounded); OS scheduling and Queue delivery are out of reach; an empty array having the "
+      "zero view is bounded (idle-worker scope)",
+      "DESIGN.md section 5 C06, section 9")
+claim("C07", "proof", T1 + " (theory B for Edge.invert; constant-propagated store closure for the rooting flag); " + T2,
+      "Proved (T1): Edge.invert -- the only structural step of a re-seeding chain -- moves the head out of the tail's child list, appends the tail to the head's, leaves every other "
+      "list alone and exchanges the two edge lengths (undirected adjacency and its length labelling preserved); soft operations (reseed_at, to_outgroup_position, "
+      "randomly_reorient, randomly_rotate, ladderize, reorder) reach no store to the rooting flag, hard operations (reroot_at_node/edge/midpoint) store True on every normal path "
+      "with no later store. Bounded (T2, deciding for the rest): leaf set, unrooted splits, total length, all path sums, midpoint equidistance incl. midpoint on a node, "
+      "edge-root distances, outgroup first, over all shapes <= 5 leaves x 12 length patterns x every target.",
+      "the composition of inversions inside reseed_at / the basal-bifurcation collapse / midpoint search are bounded only; floating-point rounding tolerated as the statement says",
+      "DESIGN.md section 5 C07, section 9")
 claim("C08", "exploration", T2 + "; wrapper contracts (argument forwarding, filter predicates, complement) by AST effect analysis + z3",
       "Bounded (deciding): every tree <= 5 leaves x every non-empty taxon subset x both flags: induced-subtree clades, merged lengths, path sums, six API variants agree, "
       "source unchanged, extraction_source, removed-node reports. T1: each extract/prune/retain wrapper forwards every shared parameter and builds the stated filter.",
